@@ -35,7 +35,7 @@ REQUIRED = [
     "round:core-judged", "round:shell-judged", "round:start-face", "round:end-face",
     "round:shape:Cylinder", "round:shape:Frustum", "round:shape:Elbow", "round:shape:SemiCylinder",
     "mesh:rotated", "mesh:exact-integer", "mesh:merged-pair-with-duplicated-vertices",
-    "round:second-call-after-mutating-the-result",
+    "round:second-call-after-mutating-the-result", "mesh:vertices-moved-between-queries",
 ]
 RULE = (
     "reorient: cube x anisotropic scale (10^U(-0.4,0.4) per axis) x size 10^U(-1,1), corner jitter class none / tiny "
@@ -277,7 +277,15 @@ def run_queries(ctx, case, mesh, mclass):
     pos = [np.array(v.position, dtype=float) for v in verts]
     finder = GeometricFinder(mesh)
     exact = bool(case.get("exact"))
-    for q in case["queries"]:
+    moves = case.get("moves") or []
+    for qi, q in enumerate(case["queries"]):
+        if moves and qi == len(case["queries"]) // 2:
+            # history: some vertices are moved (as a modification script does) and the SAME finder is queried again
+            for frac, d in moves:
+                i = int(frac * len(verts)) % len(verts)
+                verts[i].translate(d)
+                pos[i] = np.array(verts[i].position, dtype=float)
+            ctx.count("mesh:vertices-moved-between-queries")
         ctx.evaluated()
         if q["q"] == "sphere":
             is_exact = exact and q["type"].startswith("exact") and all(float(x).is_integer() for p in pos for x in p)
@@ -447,8 +455,11 @@ def gen_boxes(rng, mclass=None):
             if rng.random() < 0.3:
                 queries.append({"q": "sphere", "type": "exact-plus-1", "p": _fl(p), "r": float(r + 1)})
     rng.shuffle(queries)
+    moves = []
+    if mclass != "exact" and rng.random() < 0.4:
+        moves = [[rng.random(), [rng.uniform(-0.4, 0.4) * length for _ in range(3)]] for _ in range(rng.randint(1, 3))]
     return {"kind": "boxes", "mclass": mclass, "exact": mclass == "exact", "blocks": blocks, "queries": queries,
-            "merge": rng.random() < 0.3}
+            "merge": rng.random() < 0.3, "moves": moves}
 
 
 def run_boxes(ctx, case):
